@@ -47,7 +47,7 @@ def sign_to_exp(s):
     return {(1, 0): 0, (0, 1): 1, (-1, 0): 2, (0, -1): 3}[(int(round(s.real)), int(round(s.imag)))]
 
 
-from .c09 import guarded, canon, REJECTION   # rejections are one token `rejected` whatever the exception class; nothing propagates
+from .c09 import guarded, canon, REJECTION, buffer_reuse   # rejections are one token `rejected` whatever the exception class; nothing propagates
 
 
 def safe_impl_op(op):
@@ -338,8 +338,83 @@ def correspondence(ctx):
     ctx.extra['exhaustive_domain'] = 'all 4^(n+1) phased Paulis and all ordered pairs for n=1,2' + ('' if ctx.quick() else '; all operators n=3')
 
 
+def buffer_reuse_block(ctx, only=None):
+    """deterministic block (both tiers, no rng) of the class "buffer reuse across calls": every conversion (single and batched),
+    the PauliOperator fields and constructors, and get_pauli_group of the same n with different kinds — two different inputs of the
+    same size each (see c09.buffer_reuse)"""
+    import numqi
+    P = numqi.gate.PauliOperator
+    G = numqi.gate
+    def run(fn, call, A, B, **kw):
+        if only is None or only == fn:
+            buffer_reuse(ctx, fn, call, A, B, **kw)
+    def batch(desc, m):           # 'bits;bits;…' -> (k, m) uint8
+        return np.array([[int(c) for c in r] for r in desc.split(';')], dtype=np.uint8).reshape(-1, m)
+    def idxarr(desc):
+        return np.array([int(x) for x in desc.split(',')], dtype=np.uint64)
+    def strarr(desc):
+        return np.array(desc.split(','))
+    cases = {1: ('0110', '1011', '1', '2', 'X', 'Y'), 2: ('011011', '101101', '7', '9', 'XZ', 'YI'), 3: ('01101100', '10010111', '27', '45', 'XYZ', 'ZIY'),
+             5: ('011011001101', '100100110010', '700', '345', 'XYZIX', 'ZZYXI')}
+    for n, (fa, fb, ia, ib, sa, sb) in cases.items():
+        m = 2 * n + 2
+        # single-item conversions
+        run('pauli_F2_to_str', lambda f: list(G.pauli_F2_to_str(f2arr(f))), fa, fb)
+        run('pauli_str_to_F2', lambda x: G.pauli_str_to_F2(x.split('/')[0], PH[int(x.split('/')[1])]), f'{sa}/1', f'{sb}/3',
+            holds=lambda x, F: G.pauli_F2_to_str(np.array(F).copy())[0] == x.split('/')[0])
+        run('pauli_index_to_F2', lambda i: G.pauli_index_to_F2(int(i), n, with_sign=True), ia, ib, holds=lambda i, F: int(G.pauli_F2_to_index(np.array(F).copy())) == int(i))
+        run('pauli_index_to_F2[with_sign=False]', lambda i: G.pauli_index_to_F2(int(i), n, with_sign=False), ia, ib,
+            holds=lambda i, F: int(G.pauli_F2_to_index(np.array(F).copy(), with_sign=False)) == int(i))
+        run('pauli_index_to_str', lambda i: G.pauli_index_to_str(int(i), n), ia, ib)
+        # batched conversions: shape (2,) / (2, m)
+        ba, bb = f'{fa};{fb}', f'{fb};{fa[::-1]}'
+        run('pauli_F2_to_str[batch]', lambda d: [np.asarray(x) for x in G.pauli_F2_to_str(batch(d, m))], ba, bb)
+        run('pauli_F2_to_index[batch]', lambda d: np.asarray(G.pauli_F2_to_index(batch(d, m), with_sign=True)), ba, bb)
+        run('pauli_F2_to_index[batch,with_sign=False]', lambda d: np.asarray(G.pauli_F2_to_index(np.ascontiguousarray(batch(d, m)[:, 2:]), with_sign=False)), ba, bb)
+        run('pauli_index_to_F2[batch]', lambda d: G.pauli_index_to_F2(idxarr(d), n, with_sign=True), f'{ia},{ib}', f'{ib},0',
+            holds=lambda d, F: [int(x) for x in G.pauli_F2_to_index(np.array(F).copy(), with_sign=True)] == [int(x) for x in d.split(',')])
+        run('pauli_index_to_F2[batch,with_sign=False]', lambda d: G.pauli_index_to_F2(idxarr(d), n, with_sign=False), f'{ia},{ib}', f'{ib},0')
+        run('pauli_index_to_str[batch]', lambda d: np.asarray(G.pauli_index_to_str(idxarr(d), n)), f'{ia},{ib}', f'{ib},0')
+        run('pauli_str_to_F2[batch]', lambda d: G.pauli_str_to_F2(strarr(d), np.array([1, -1j])), f'{sa},{sb}', f'{sb},{sa[::-1]}')
+        run('pauli_str_to_index[batch]', lambda d: np.asarray(G.pauli_str_to_index(strarr(d))), f'{sa},{sb}', f'{sb},{sa[::-1]}')
+        # PauliOperator: fields of two live objects of the same size, constructors, algebra
+        def fields(f):
+            p = P(f2arr(f))
+            return [p.F2, p.str_, complex(p.sign), p.full_matrix if n <= 3 else np.zeros(1), len(p)]
+        run('PauliOperator.fields', fields, fa, fb, holds=lambda f, r: bits(r[0]) == f and (n > 3 or np.array_equal(r[3], P(f2arr(f)).full_matrix)))
+        run('PauliOperator.np_list', lambda f: [np.asarray(x) for x in P(f2arr(f)).np_list], fa, fb, share_ok=True, mutate=False)   # hands out the module-level 2x2 matrices (observation): never overwritten here
+        run('PauliOperator.__matmul__', lambda d: (P(f2arr(d.split('|')[0])) @ P(f2arr(d.split('|')[1]))).F2, f'{fa}|{fb}', f'{fb}|{fa}')
+        run('PauliOperator.inverse', lambda f: P(f2arr(f)).inverse().F2, fa, fb)
+        run('PauliOperator.from_index', lambda i: P.from_index(int(i), n).F2, ia, ib)
+        run('PauliOperator.from_str', lambda x: P.from_str(x, -1).F2, sa, sb)
+        run('PauliOperator.from_np_list', lambda f: P.from_np_list(P(f2arr(f)).np_list, P(f2arr(f)).sign).F2, fa, fb, holds=lambda f, F: bits(F) == f)
+        if n <= 3:
+            run('PauliOperator.full_matrix', lambda f: P(f2arr(f)).full_matrix, fa, fb)
+            run('PauliOperator.from_full_matrix', lambda f: P.from_full_matrix(P(f2arr(f)).full_matrix).F2, fa, fb, holds=lambda f, F: bits(F) == f)
+    # get_pauli_group: same n, different kind (the lru_cache hands out one object per (n, kind): same-input identity is the recorded
+    # observation; here the table of one kind must survive the request for another kind)
+    for n in (1, 2, 3):
+        def group(kind):
+            if kind == 'sparse':
+                return [x.toarray() for x in G.get_pauli_group(n, kind='numpy', use_sparse=True)]
+            r = G.get_pauli_group(n, kind=kind)
+            return np.array(r).copy() if kind == 'numpy' else (list(r) if kind == 'str' else dict(r))   # private copies: the cached object itself must not be vandalised
+        for ka, kb in (('numpy', 'str'), ('str', 'str_to_index'), ('str_to_index', 'numpy'), ('numpy', 'sparse'), ('sparse', 'numpy')):
+            run('get_pauli_group', group, ka, kb, share_ok=True)
+        # and the cached numpy table itself is not changed by requests for the other kinds
+        def table_after(kind):
+            t0 = np.array(G.get_pauli_group(n)).copy()
+            G.get_pauli_group(n, kind=kind) if kind != 'sparse' else G.get_pauli_group(n, kind='numpy', use_sparse=True)
+            return [t0, np.array(G.get_pauli_group(n)).copy()]
+        run('get_pauli_group[table]', table_after, 'str', 'str_to_index', holds=lambda k, r: np.array_equal(r[0], r[1]), share_ok=True)
+
+
 def probe(ctx):
     """direct evaluation of the property on the real code, independent of the model"""
+    try:
+        buffer_reuse_block(ctx)
+    except Exception as e:  # noqa: BLE001
+        ctx.fail('implementation-raised', f'{type(e).__name__}: {e} in the buffer-reuse block', dict(op='buffer-reuse'))
     import numqi
     P = numqi.gate.PauliOperator
     G = numqi.gate
